@@ -113,3 +113,18 @@ def value(m, v):
         return struct.unpack(">d", struct.pack(">Q", bits))[0]
     except Exception:  # noqa: BLE001
         return float(s.replace("oo", "inf")) if s else None
+
+
+def nextafter(v, up):
+    """bit-precise np.nextafter(v, +-inf) for a finite double: step the IEEE bit pattern (sign-magnitude)."""
+    bv = z3.fpToIEEEBV(v.e)
+    one = z3.BitVecVal(1, 64)
+    neg = z3.fpIsNegative(v.e)
+    zero = z3.fpIsZero(v.e)
+    min_pos = z3.BitVecVal(1, 64)                      # smallest subnormal
+    min_neg = z3.BitVecVal((1 << 63) | 1, 64)
+    if up:
+        out = z3.If(zero, min_pos, z3.If(neg, bv - one, bv + one))
+    else:
+        out = z3.If(zero, min_neg, z3.If(neg, bv + one, bv - one))
+    return FPV(z3.fpBVToFP(out, F64))
